@@ -383,5 +383,5 @@ void bad_argument (svalue_t * val, int type, int arg, int instr) {
   strncpy (msg, outbuf.buffer, sizeof(msg)-1);
   FREE_MSTR (outbuf.buffer);
 
-  error (msg);
+  error ("%s", msg);	/* msg quotes the offending value: never use it as the format */
 }
